@@ -17,7 +17,9 @@ Operations (values are ints, `r` is the word the random source returns):
   hold k (keep the node GetNode(k) returns) | held (Key/Value/Next of the kept node) |
   heldset v (SetValue on the kept node) | heldwalk (Next() from the kept node to the end);
   the kept node is dropped when it is removed from the list (rm hit on an equivalent key, clear, init)
-Every answer is `<result> | L=<level> n=<len> <towers>`.
+  fill lo hi step seed nat|tall | rmrange lo hi step asc|desc|stride s   (int keys; see below)
+Every answer is `<result> | L=<level> n=<len> <towers>` (`dump`), `<result> | L= n= lens=<chain lengths>`
+(`vdump`, for large lists) or `<result>` (`nodump`).
 -/
 namespace Golib.C02
 open Golib.Proto
@@ -25,9 +27,25 @@ open Golib.Proto
 structure KeyIO (K : Type) where
   parse : String → Option K
   show_ : K → String
+  ofInt : Option (Int → K)      -- bulk operations generate int keys
 
-def intIO : KeyIO Int := ⟨String.toInt?, toString⟩
-def strIO : KeyIO (List Nat) := ⟨unhex, hex⟩
+def intIO : KeyIO Int := ⟨String.toInt?, toString, some id⟩
+def strIO : KeyIO (List Nat) := ⟨unhex, hex, none⟩
+
+/-! Bulk operations (large lists in short cases).
+`fill lo hi step seed kind`: `SetNx(k, 1000+i, w_i)` for `k = lo, lo+step, … < hi`; answers the
+number of keys inserted.  The random-source words `w_i` come from a 64-bit LCG started at `seed`
+(`kind = nat`: natural geometric heights) or force a tower of height 12…19 every fourth insert
+(`kind = tall`).  `rmrange lo hi step order s`: `Remove` of the same keys in ascending (`asc`),
+descending (`desc`) or strided (`stride`: index `i*s mod n`) order; answers the number removed. -/
+
+def lcg (x : Nat) : Nat := (x * 6364136223846793005 + 1442695040888963407) % 2 ^ 64
+
+def bulkWord (tall : Bool) (x : Nat) : Nat :=
+  if tall && (x >>> 60) % 4 == 0 then 1 <<< (32 - (12 + (x >>> 56) % 8)) else x >>> 16
+
+def bulkCount (lo hi step : Int) : Nat :=
+  if hi ≤ lo ∨ step ≤ 0 then 0 else ((hi - lo + step - 1) / step).toNat
 
 def cmpInt (a b : Int) : Int := if a < b then -1 else if a = b then 0 else 1
 
@@ -83,6 +101,33 @@ def showTowers (io : KeyIO K) (s : SL K Int) : String :=
   let body := if s.lv.isEmpty then "nil"
     else "/".intercalate (chains.map fun l => " ".intercalate (l.map io.show_))
   s!"L={s.level} n={s.len} {body}"
+
+/-- `vdump`: level, len and the length of every level chain (the Go side validates the
+structure of the reflected towers itself in this mode). -/
+def showTowerLens (s : SL K Int) : String :=
+  let chains := (s.lv.reverse.dropWhile List.isEmpty).reverse
+  let body := if s.lv.isEmpty then "nil" else ",".intercalate (chains.map fun l => toString l.length)
+  s!"L={s.level} n={s.len} lens={body}"
+
+/-- The loop of `fill`. -/
+def fillLoop (cfg : Cfg K Int) (ofInt : Int → K) (tall : Bool) (lo step : Int) :
+    Nat → Nat → Nat → SL K Int → Nat → Option (SL K Int × Nat)
+  | 0, _, _, s, cnt => some (s, cnt)
+  | n + 1, i, x, s, cnt =>
+    let x' := lcg x
+    match s.set cfg (ofInt (lo + step * i)) (1000 + i) 2 (bulkWord tall x') with
+    | none => none
+    | some (s', ok) => fillLoop cfg ofInt tall lo step n (i + 1) x' s' (if ok then cnt + 1 else cnt)
+
+/-- The loop of `rmrange`; `order`: 0 asc, 1 desc, 2 stride. -/
+def rmLoop (cfg : Cfg K Int) (ofInt : Int → K) (lo step : Int) (total order stride : Nat) :
+    Nat → Nat → SL K Int → Nat → Option (SL K Int × Nat)
+  | 0, _, s, cnt => some (s, cnt)
+  | n + 1, i, s, cnt =>
+    let idx := if order == 0 then i else if order == 1 then total - 1 - i else (i * stride) % total
+    match s.remove cfg (ofInt (lo + step * idx)) with
+    | none => none
+    | some (s', _, ok) => rmLoop cfg ofInt lo step total order stride n (i + 1) s' (if ok then cnt + 1 else cnt)
 
 def showKVs (io : KeyIO K) (xs : List (K × Int)) : String :=
   "[" ++ " ".intercalate (xs.map fun (k, v) => io.show_ k ++ ":" ++ toString v) ++ "]"
@@ -171,6 +216,32 @@ def step (io : KeyIO K) (cfg : Cfg K Int) (st : SL K Int × Option K) (t : List 
   | ["heldwalk"] => some (match held with
       | none => some ((s, held), "none")
       | some n => (s.walkNodes (s.lv.headD []).length (some n)).map fun xs => ((s, held), showKVs io xs))
+  | ["fill", lo, hi, st, seed, kind] =>
+    match io.ofInt, lo.toInt?, hi.toInt?, st.toInt?, seed.toNat? with
+    | some ofInt, some lo, some hi, some st, some seed =>
+      let n := bulkCount lo hi st
+      -- (not on an uninitialised list: the harness cannot force the height of the lazy-init insert)
+      if n > 100000 ∨ seed ≥ 2 ^ 64 ∨ (kind ≠ "nat" ∧ kind ≠ "tall") ∨ s.lv.isEmpty then none
+      else some ((fillLoop cfg ofInt (kind = "tall") lo st n 0 seed s 0).map fun (s', c) => ((s', held), toString c))
+    | _, _, _, _, _ => none
+  | ["rmrange", lo, hi, st, order, stride] =>
+    match io.ofInt, lo.toInt?, hi.toInt?, st.toInt?, stride.toNat? with
+    | some ofInt, some lo, some hi, some st, some stride =>
+      let n := bulkCount lo hi st
+      let o := if order = "asc" then some 0 else if order = "desc" then some 1 else if order = "stride" then some 2 else none
+      match o with
+      | none => none
+      | some o =>
+        if n > 100000 then none
+        else some ((rmLoop cfg ofInt lo st n o stride n 0 s 0).bind fun (s', c) =>
+          -- the kept node is dropped when it is no longer in the list
+          match held with
+          | none => some ((s', none), toString c)
+          | some h => match s'.getNode cfg h with
+            | none => none
+            | some none => some ((s', none), toString c)
+            | some (some _) => some ((s', held), toString c))
+    | _, _, _, _, _ => none
   | _ =>
     -- the kept node leaves the list: Remove of an equivalent key that succeeds, Clear, Init
     let drops : Bool := match t, held with
@@ -182,10 +253,12 @@ def step (io : KeyIO K) (cfg : Cfg K Int) (st : SL K Int × Option K) (t : List 
       | _, _ => false
     (stepList io cfg s t).map fun r => r.map fun (s', o) => ((s', if drops then none else held), o)
 
-def withDump (io : KeyIO K) (dump : Bool) (out : String) (s : SL K Int) : String :=
-  if dump then out ++ " | " ++ showTowers io s else out
+def withDump (io : KeyIO K) (dump : String) (out : String) (s : SL K Int) : String :=
+  if dump = "dump" then out ++ " | " ++ showTowers io s
+  else if dump = "vdump" then out ++ " | " ++ showTowerLens s
+  else out
 
-def runOps (io : KeyIO K) (cfg : Cfg K Int) (dump : Bool) :
+def runOps (io : KeyIO K) (cfg : Cfg K Int) (dump : String) :
     Option (SL K Int × Option K) → List String → List String
   | _, [] => []
   | none, _ :: ls => "dead" :: runOps io cfg dump none ls
@@ -195,7 +268,7 @@ def runOps (io : KeyIO K) (cfg : Cfg K Int) (dump : Bool) :
     | some none => "panic" :: runOps io cfg dump none ls
     | some (some (s', out)) => withDump io dump out s'.1 :: runOps io cfg dump (some s') ls
 
-def runWith (io : KeyIO K) (cfg : Cfg K Int) (kind : String) (dump : Bool) (ops : List String) : List String :=
+def runWith (io : KeyIO K) (cfg : Cfg K Int) (kind : String) (dump : String) (ops : List String) : List String :=
   let s0 : SL K Int := if kind = "zero" then SL.zero else SL.init
   withDump io dump "ok" s0 :: runOps io cfg dump (some (s0, none)) ops
 
@@ -204,8 +277,8 @@ def bad (ops : List String) : List String := "bad-op" :: ops.map fun _ => "bad-o
 def runCase (hdr : List String) (ops : List String) : List String :=
   match hdr with
   | [kind, kt, c, d] =>
-    if d ≠ "dump" ∧ d ≠ "nodump" then bad ops else
-    let dump := d = "dump"
+    if d ≠ "dump" ∧ d ≠ "nodump" ∧ d ≠ "vdump" then bad ops else
+    let dump := d
     if kind = "zero" ∨ kind = "new" then
       if c ≠ "nat" then bad ops
       else if kt = "int" then runWith intIO ⟨cmpInt, true, 0, 0, true⟩ kind dump ops
